@@ -11,6 +11,20 @@
 (* i.e. every answer is a function of the current fields only - the answer a *)
 (* fresh object built from the same fields would give.                       *)
 (*                                                                           *)
+(* SHAPE.  "inputs" in "fee = inputs minus outputs" are the spendables the   *)
+(* INPUTS came from: input i is paired with unspents[i].  The unspents list  *)
+(* need not have one entry per input - the inputs are edited after the       *)
+(* unspents were installed, a list is assigned past the checked setter, the  *)
+(* constructor is handed a list of another length.  Then                     *)
+(*   fewer unspents than inputs: the value of some input is unknown; no      *)
+(*       number can be "inputs minus outputs": total_in / fee / validate     *)
+(*       must refuse (raise);                                                *)
+(*   more unspents than inputs: the surplus entries are spendables that are  *)
+(*       not inputs.  An answer is either a refusal or computed from the     *)
+(*       entries paired with the inputs (the first Len(ins)) - never from    *)
+(*       the surplus (R1: the property does not say which of the two).       *)
+(* Allowed(..) is the set of admissible answers; the machine below refuses.  *)
+(*                                                                           *)
 (* The machine is implementation-shaped: it may keep a memo of total_in.     *)
 (*   CacheMode = "none"         no memo (the plain reading of the standard)  *)
 (*             = "all_writers"  memo dropped by every writer of the unspents *)
@@ -21,9 +35,13 @@
 (* HistoryIndependent in every reachable state and that the third does not   *)
 (* (the slip the replay and the traces must catch in pycoin).                *)
 (*                                                                           *)
+(* Born:     with the unspents list StartLists names (the constructor takes  *)
+(*                               any list)                                   *)
 (* Writers:  SetUnspents(list)   checked setter: wrong length raises, nothing*)
 (*                               changes                                     *)
-(*           Assign(list)        tx.unspents = list                          *)
+(*           Assign(list)        tx.unspents = list (any length)             *)
+(*           RemoveIn, AppendIn  the last input is dropped / one more input  *)
+(*                               is added; the unspents stay as they are     *)
 (*           FromDb(db)          unspents := the outputs db holds for the    *)
 (*                               inputs' outpoints; raises (nothing changes) *)
 (*                               unless db holds each very source and output *)
@@ -31,7 +49,9 @@
 (* Queries:  TotalIn, TotalOut, Fee, Validate(db)                            *)
 EXTENDS Integers, Sequences, FiniteSets, TLC
 
-CONSTANTS CacheMode, MaxOuts
+CONSTANTS CacheMode, MaxOuts,
+          StartLists,     \* the unspents lists (indices into Lists) an object may be born with
+          ListIds         \* the lists the writers SetUnspents / Assign are tried with
 
 U == INSTANCE UnspentRules
 
@@ -44,8 +64,14 @@ Ins   == << [src |-> 1, idx |-> 0], [src |-> 2, idx |-> 0] >>
 \* unspents a caller may install: the truth, a wrong amount on either input, a wrong
 \* script, and a list of the wrong length (only the checked setter refuses it)
 Lists == << << O(5, 1), O(3, 1) >>, << O(7, 1), O(3, 1) >>, << O(5, 2), O(3, 1) >>,
-            << O(5, 1), O(4, 1) >>, << O(9, 1) >> >>
-WellSized == {k \in 1..Len(Lists) : Len(Lists[k]) = Len(Ins)}
+            << O(5, 1), O(4, 1) >>, << O(9, 1) >>, << O(5, 1), O(3, 1), O(8, 2) >> >>
+\* lists one shorter and one longer than the inputs the object is born with
+ASSUME ListIds \subseteq 1..Len(Lists) /\ StartLists \subseteq 1..Len(Lists)
+ASSUME \E k \in ListIds : Len(Lists[k]) = Len(Ins) - 1
+ASSUME \E k \in ListIds : Len(Lists[k]) = Len(Ins) + 1
+\* the input AppendIn adds: the second output of source 1
+ExtraIn == [src |-> 1, idx |-> 1]
+MaxIns == Len(Ins) + 1
 Honest == [s \in 1..2 |-> U!Stored(s, Truth[s])]
 DBs == [honest |-> Honest,
         miss2  |-> [Honest EXCEPT ![2] = U!Missing],
@@ -61,74 +87,110 @@ SumAmt(s) == IF s = << >> THEN 0 ELSE Head(s).amt + SumAmt(Tail(s))
 TotalInOf(un)       == SumAmt(un)
 TotalOutOf(outs)    == SumAmt(outs)
 FeeOf(un, outs)     == TotalInOf(un) - TotalOutOf(outs)
-TxOf(un, outs)      == [ins |-> Ins, unspents |-> un, outs |-> outs]
+TxOf(in, un, outs)  == [ins |-> in, unspents |-> un, outs |-> outs]
 Val(n)   == << "val", n >>
 Raise    == << "raise" >>
 Ok       == << "ok" >>
-ValidateOf(un, outs, db) == IF U!AllBacked(TxOf(un, outs), db) THEN Val(FeeOf(un, outs)) ELSE Raise
+\* the shape of the object: one unspent per input, some input without one, or entries beyond the inputs
+Shaped(in, un)  == Len(un) = Len(in)
+Short(in, un)   == Len(un) < Len(in)
+Surplus(in, un) == Len(un) > Len(in)
+PairedUn(in, un) == SubSeq(un, 1, Len(in))          \* (not Short) the entries paired with the inputs
+\* a value answer computed from the paired entries; a refusal is always admissible when the shape is wrong
+Answers(in, un, v(_)) == IF Short(in, un) THEN {Raise}
+                         ELSE IF Shaped(in, un) THEN {v(un)}
+                         ELSE {Raise, v(PairedUn(in, un))}
+TotalInAllowed(in, un)    == Answers(in, un, LAMBDA p : Val(TotalInOf(p)))
+FeeAllowed(in, un, outs)  == Answers(in, un, LAMBDA p : Val(FeeOf(p, outs)))
+ValidateAllowed(in, un, outs, db) ==
+  Answers(in, un, LAMBDA p : IF U!AllBacked(TxOf(in, p, outs), db) THEN Val(FeeOf(p, outs)) ELSE Raise)
 \* what UnspentsFromDb installs (defined when FromDbOk)
-FromDbOk(db)   == U!Fetchable(TxOf(<< >>, << >>), db)
-FromDbList(db) == U!Fetched(TxOf(<< >>, << >>), db)
+FromDbOk(in, db)   == U!Fetchable(TxOf(in, << >>, << >>), db)
+FromDbList(in, db) == U!Fetched(TxOf(in, << >>, << >>), db)
 
 \* ---- the machine
-VARIABLES unspents, outs,
+VARIABLES ins, unspents, outs,
           memo,     \* remembered total_in, or NoMemo
-          last      \* the last action and its answer
-svars == <<unspents, outs, memo, last>>
+          last,     \* the last action and its answer
+          born      \* the list the object was born with
+svars == <<ins, unspents, outs, memo, last, born>>
 NoMemo == -1
 
-SInit == /\ unspents = Lists[1] /\ outs = InitOuts /\ memo = NoMemo
+SInit == /\ born \in StartLists
+         /\ ins = Ins /\ unspents = Lists[born] /\ outs = InitOuts /\ memo = NoMemo
          /\ last = [a |-> << "new" >>, r |-> Ok]
 
-\* total_in as the object computes it
+\* total_in as the object computes it: it refuses unless there is one unspent per input
+Ready == Shaped(ins, unspents)
+Unchecked == TRUE          \* (MC_TxSession_unchecked.cfg: an object that sums whatever list it holds - must be rejected)
 ReadIn == IF CacheMode # "none" /\ memo # NoMemo THEN memo ELSE SumAmt(unspents)
 Remember == memo' = IF CacheMode = "none" THEN NoMemo ELSE ReadIn
 Drop(always) == memo' = IF always \/ CacheMode = "all_writers" THEN NoMemo ELSE memo
 
-QTotalIn  == /\ last' = [a |-> << "tin" >>, r |-> Val(ReadIn)]
-             /\ Remember /\ UNCHANGED <<unspents, outs>>
+QTotalIn  == /\ IF Ready THEN last' = [a |-> << "tin" >>, r |-> Val(ReadIn)] /\ Remember
+                      ELSE last' = [a |-> << "tin" >>, r |-> Raise] /\ UNCHANGED memo
+             /\ UNCHANGED <<ins, unspents, outs>>
 QTotalOut == /\ last' = [a |-> << "tout" >>, r |-> Val(SumAmt(outs))]
-             /\ UNCHANGED <<unspents, outs, memo>>
-QFee      == /\ last' = [a |-> << "fee" >>, r |-> Val(ReadIn - SumAmt(outs))]
-             /\ Remember /\ UNCHANGED <<unspents, outs>>
+             /\ UNCHANGED <<ins, unspents, outs, memo>>
+QFee      == /\ IF Ready THEN last' = [a |-> << "fee" >>, r |-> Val(ReadIn - SumAmt(outs))] /\ Remember
+                      ELSE last' = [a |-> << "fee" >>, r |-> Raise] /\ UNCHANGED memo
+             /\ UNCHANGED <<ins, unspents, outs>>
 QValidate(d) ==
-  /\ IF U!AllBacked(TxOf(unspents, outs), DBs[d])
+  /\ IF Ready /\ U!AllBacked(TxOf(ins, unspents, outs), DBs[d])
      THEN last' = [a |-> << "validate", d >>, r |-> Val(ReadIn - SumAmt(outs))] /\ Remember
      ELSE last' = [a |-> << "validate", d >>, r |-> Raise] /\ UNCHANGED memo
-  /\ UNCHANGED <<unspents, outs>>
+  /\ UNCHANGED <<ins, unspents, outs>>
 
-WSet(k) == IF Len(Lists[k]) = Len(Ins)
+WSet(k) == IF Len(Lists[k]) = Len(ins)
            THEN /\ unspents' = Lists[k] /\ Drop(TRUE)
-                /\ last' = [a |-> << "set", k >>, r |-> Ok] /\ UNCHANGED outs
-           ELSE /\ last' = [a |-> << "set", k >>, r |-> Raise] /\ UNCHANGED <<unspents, outs, memo>>
-WAssign(k) == /\ k \in WellSized
-              /\ unspents' = Lists[k] /\ Drop(FALSE)
-              /\ last' = [a |-> << "assign", k >>, r |-> Ok] /\ UNCHANGED outs
-WFromDb(d) == IF FromDbOk(DBs[d])
-              THEN /\ unspents' = FromDbList(DBs[d]) /\ Drop(FALSE)
-                   /\ last' = [a |-> << "fromdb", d >>, r |-> Ok] /\ UNCHANGED outs
-              ELSE /\ last' = [a |-> << "fromdb", d >>, r |-> Raise] /\ UNCHANGED <<unspents, outs, memo>>
+                /\ last' = [a |-> << "set", k >>, r |-> Ok] /\ UNCHANGED <<ins, outs>>
+           ELSE /\ last' = [a |-> << "set", k >>, r |-> Raise] /\ UNCHANGED <<ins, unspents, outs, memo>>
+WAssign(k) == /\ unspents' = Lists[k] /\ Drop(FALSE)
+              /\ last' = [a |-> << "assign", k >>, r |-> Ok] /\ UNCHANGED <<ins, outs>>
+WFromDb(d) == IF FromDbOk(ins, DBs[d])
+              THEN /\ unspents' = FromDbList(ins, DBs[d]) /\ Drop(FALSE)
+                   /\ last' = [a |-> << "fromdb", d >>, r |-> Ok] /\ UNCHANGED <<ins, outs>>
+              ELSE /\ last' = [a |-> << "fromdb", d >>, r |-> Raise] /\ UNCHANGED <<ins, unspents, outs, memo>>
 WAppend(k) == /\ Len(outs) < MaxOuts
               /\ outs' = Append(outs, Pays[k])
-              /\ last' = [a |-> << "append", k >>, r |-> Ok] /\ UNCHANGED <<unspents, memo>>
+              /\ last' = [a |-> << "append", k >>, r |-> Ok] /\ UNCHANGED <<ins, unspents, memo>>
 WReplace(i, k) == /\ i \in 1..Len(outs)
                   /\ outs' = [outs EXCEPT ![i] = Pays[k]]
-                  /\ last' = [a |-> << "replace", i, k >>, r |-> Ok] /\ UNCHANGED <<unspents, memo>>
+                  /\ last' = [a |-> << "replace", i, k >>, r |-> Ok] /\ UNCHANGED <<ins, unspents, memo>>
+\* the inputs are edited; the unspents are not told
+WRemoveIn == /\ Len(ins) > 1
+             /\ ins' = SubSeq(ins, 1, Len(ins) - 1)
+             /\ last' = [a |-> << "remove_in" >>, r |-> Ok] /\ UNCHANGED <<unspents, outs, memo>>
+WAppendIn == /\ Len(ins) < MaxIns
+             /\ ins' = Append(ins, ExtraIn)
+             /\ last' = [a |-> << "append_in", ExtraIn.src, ExtraIn.idx >>, r |-> Ok] /\ UNCHANGED <<unspents, outs, memo>>
 
-SNext == \/ QTotalIn \/ QTotalOut \/ QFee
-         \/ \E d \in DbNames : QValidate(d) \/ WFromDb(d)
-         \/ \E k \in 1..Len(Lists) : WSet(k) \/ WAssign(k)
-         \/ \E k \in 1..Len(Pays) : WAppend(k) \/ WReplace(1, k)
+SNext == /\ \/ QTotalIn \/ QTotalOut \/ QFee
+            \/ \E d \in DbNames : QValidate(d) \/ WFromDb(d)
+            \/ \E k \in ListIds : WSet(k) \/ WAssign(k)
+            \/ \E k \in 1..Len(Pays) : WAppend(k) \/ WReplace(1, k)
+            \/ WRemoveIn \/ WAppendIn
+         /\ UNCHANGED born
 SSpec == SInit /\ [][SNext]_svars
 
-\* ---- the lemma: every answer is the one the current fields determine
+\* the admissible answers to the last question, from the CURRENT fields
+AllowedFor(a, in, un, o) ==
+  CASE a[1] = "tin"  -> TotalInAllowed(in, un)
+    [] a[1] = "tout" -> {Val(TotalOutOf(o))}
+    [] a[1] = "fee"  -> FeeAllowed(in, un, o)
+    [] a[1] = "validate" -> ValidateAllowed(in, un, o, DBs[a[2]])
+    [] OTHER -> {}
+AllowedNow(a) == AllowedFor(a, ins, unspents, outs)
+
+\* ---- the lemma: every answer is one the current fields admit
 HistoryIndependent ==
-  LET a == last.a[1] IN
-  /\ a = "tin"  => last.r = Val(TotalInOf(unspents))
-  /\ a = "tout" => last.r = Val(TotalOutOf(outs))
-  /\ a = "fee"  => last.r = Val(FeeOf(unspents, outs))
-  /\ a = "validate" => last.r = ValidateOf(unspents, outs, DBs[last.a[2]])
-\* the checked setter never leaves a list of the wrong length behind; a memo, when kept, is right
-Shape == Len(unspents) = Len(Ins)
+  last.a[1] \in {"tin", "tout", "fee", "validate"} => last.r \in AllowedNow(last.a)
+\* the checked setter never installs a list of the wrong length; a memo, when kept, is right
+Shape == (last.a[1] = "set" /\ last.r = Ok) => Shaped(ins, unspents)
 MemoRight == memo # NoMemo => memo = SumAmt(unspents)
+\* the shapes are worth the trouble: a value computed from ALL entries of a surplus list is never admissible
+\* (every amount is positive), and every shape is reached
+SurplusNeverCounted ==
+  Surplus(ins, unspents) => /\ Val(SumAmt(unspents)) \notin TotalInAllowed(ins, unspents)
+                            /\ Val(FeeOf(unspents, outs)) \notin FeeAllowed(ins, unspents, outs)
 =============================================================================
